@@ -23,12 +23,12 @@ from __future__ import annotations
 import ast
 from typing import Dict, List, Optional, Set, Tuple
 
-from asl.absint import UNKNOWN as UNKNOWN_
+from asl.absint import UNKNOWN as UNKNOWN_, AbsEval, Machine
 from asl.cfg import Node, cfg_of
 from asl.flow import reaching
 from asl.loader import AnalysisError, Unit, norm, own_nodes
 from asl.values import USERISH, Val, roles_of_annotation
-from .common import real_units, uncast, uncast_deep
+from .common import make_resolver, real_units, uncast, uncast_deep
 from .c06 import _builtin_consumer
 from .lru import enumerate_paths
 
@@ -45,7 +45,7 @@ LEVEL = {
 
 # raw calls of user objects that are correct by documented contract (unit -> reason)
 BY_CONTRACT = {
-    "_core.Awaitify.__call__": "the awaitify wrapper itself: inspects the result of the first call",
+    "_core.Awaitify": "the awaitify wrapper itself: inspects the result of the first call",
     "_core.force_async": "coroutine wrapper built by awaitify for callables known to be synchronous",
     # a class name covers every method of the class (the contract is about the wrapped object)
     "_lrucache.UncachedLRUAsyncCallable": "lru_cache wraps callables documented to return an awaitable",
@@ -337,86 +337,143 @@ def r03_2(ctx) -> None:
 
 
 # --------------------------------------------------------------------------- R03.3
+class _AdapterOps:
+    """Object model for the two adapters: opaque user objects (SUBJECT, FUNC, RESULT, CACHED),
+    ``obj.name`` -> ('meth', obj, name), calls -> ('call', callee, args), library generator /
+    coroutine functions and classes -> ('lib', qualified name, args).  ``isinstance`` and
+    ``iscoroutinefunction`` answers come from the scenario; every call of a user callable is
+    logged in env['@calls']."""
+
+    def __init__(self, ctx, module, scenario: dict):
+        self.ctx, self.module, self.sc = ctx, module, scenario
+
+    def attr(self, value, name, node, env):
+        if value == "SELF":
+            return env.get("@f:" + name, UNKNOWN_)
+        if value is UNKNOWN_ or value is None:
+            return UNKNOWN_
+        return ("meth", value, name)
+
+    def store(self, target, value, env, ev):
+        if isinstance(target, ast.Attribute) and ev.eval(target.value, env) == "SELF":
+            env["@f:" + target.attr] = value
+
+    def _args(self, node, env):
+        ev = AbsEval(self)
+        out = []
+        for a in node.args:
+            out.append(("*", ev.eval(a.value, env)) if isinstance(a, ast.Starred) else ev.eval(a, env))
+        for k in node.keywords:
+            out.append(("**", ev.eval(k.value, env)) if k.arg is None else (k.arg, ev.eval(k.value, env)))
+        return tuple(out)
+
+    def call(self, func, args, kwargs, node, env):
+        ev = AbsEval(self)
+        r = self.ctx.pkg.resolve_expr_global(self.module, node.func)
+        last = r.qual.split(".")[-1] if r.kind in ("lib", "builtin", "stdlib") else ""
+        if last == "isinstance" and len(node.args) == 2 and len(args) == 2:
+            return self.sc.get("isinstance", {}).get((args[0], norm(node.args[1]).split(".")[-1]), UNKNOWN_)
+        if last == "iscoroutinefunction" and args:
+            return self.sc.get("iscoroutinefunction", UNKNOWN_)
+        if last == "cast" and len(args) == 2:
+            return args[1]
+        if r.kind == "lib":
+            return ("lib", last, self._args(node, env))
+        callee = ev.eval(node.func, env)
+        if callee in ("FUNC", "CACHED") or (isinstance(callee, tuple) and callee[:1] in (("meth",), ("lib",))):
+            return ("call", callee, self._args(node, env))
+        return UNKNOWN_
+
+    def visit(self, node, env, ev):
+        if node.kind == "call":
+            callee = ev.eval(node.ast.func, env)
+            if callee in ("FUNC", "CACHED"):
+                env["@calls"] = env.get("@calls", ()) + ((callee, self._args(node.ast, env)),)
+
+
+def _adapter_run(ctx, u, scenario, env, skip=()):
+    ops = _AdapterOps(ctx, u.module, scenario)
+    return Machine(cfg_of(u), ops, resolver=make_resolver(ctx, u, ops, skip=skip)).run(env)
+
+
 def r03_3(ctx) -> None:
+    SKIP = ("force_async", "await_value", "awaitify", "aiter")
+    # --- aiter: the asynchronous protocol wins; everything else goes through the sync wrapper
     u = ctx.unit("_core.aiter")
-    cfg = cfg_of(u)
     p = u.param_names()[0]
-    tests = [n for n in cfg.nodes if n.kind == "branch" and isinstance(n.ast, ast.Call) and norm(n.ast.func) == "isinstance"
-             and norm(n.ast.args[0]) == p and norm(n.ast.args[1]) == "AsyncIterable"]
-    ctx.check(len(tests) == 1, "R03.3", u, "aiter", "aiter tests the asynchronous protocol (AsyncIterable) first")
-    if tests:
-        t = tests[0]
-        for lab, want in (("t", "async"), ("f", "sync")):
-            succ = [s for (l2, s) in t.succ if l2 == lab]
-            from asl.flow import reachable
-            rets = [n for n in reachable(succ, edge_ok=lambda a, l3, b: l3 not in ("e", "p")) if n.kind == "return"]
-            ok = bool(rets)
-            for r in rets:
-                v = ctx.vals.expr(u, r.info.get("value"), r)
-                if want == "async":
-                    ok = ok and norm(r.info.get("value")) == f"{p}.__aiter__()"
-                else:
-                    ok = ok and any(a[0] == "libgen" and a[1].endswith("_aiter_sync") for a in v)
-            ctx.check(ok, "R03.3", u, rets[0] if rets else t,
-                      f"{want} branch returns " + ("the object's own async iterator" if want == "async" else
-                                                   "the library's wrapper generator around the synchronous iterable"))
+    wrapper = ctx.unit("_core._aiter_sync").node.name
+    for is_async in (True, False):
+        ctx.count("adapter_cells")
+        outs = _adapter_run(ctx, u, {"isinstance": {("SUBJECT", "AsyncIterable"): is_async, ("SUBJECT", "AsyncIterator"): is_async}},
+                            {p: "SUBJECT"}, SKIP)
+        got = {oc.returned if oc.terminal.kind == "exit" else ("raises", str(oc.raised)) for oc in outs}
+        want = ("call", ("meth", "SUBJECT", "__aiter__"), ()) if is_async else \
+            ("call", ("meth", ("lib", wrapper, ("SUBJECT",)), "__aiter__"), ())
+        alt = ("lib", wrapper, ("SUBJECT",))  # the wrapper generator is its own iterator
+        ctx.check(got == {want} or (not is_async and got == {alt}), "R03.3", u, "aiter",
+                  f"[{'async' if is_async else 'not async'} iterable] aiter returns " + (
+                      "the object's own async iterator" if is_async else
+                      "the library's wrapper generator around the synchronous iterable"), witness=str(sorted(map(str, got))))
     s = ctx.unit("_core._aiter_sync")
     loops = [n for n in own_nodes(s.node) if isinstance(n, ast.For)]
     ok = len(loops) == 1 and norm(loops[0].iter) == s.param_names()[0] and s.kind == "asyncgen" \
         and any(isinstance(x, ast.Yield) and norm(x.value) == norm(loops[0].target) for x in ast.walk(loops[0]))
     ctx.check(ok, "R03.3", s, "_aiter_sync", "the sync wrapper iterates with a plain `for` (so iterators and "
               "__getitem__ sequences both work) and yields every item unchanged")
+    # --- awaitify: coroutine functions pass, everything else is wrapped for run-time detection
     w = ctx.unit("_core.awaitify")
-    cfg = cfg_of(w)
     p = w.param_names()[0]
-    tests = [n for n in cfg.nodes if n.kind == "branch" and isinstance(n.ast, ast.Call) and
-             norm(n.ast.func).endswith("iscoroutinefunction") and norm(n.ast.args[0]) == p]
-    rets = [n for n in cfg.nodes if n.kind == "return"]
-    vals = [norm(r.info.get("value")) for r in rets]
-    ctx.check(len(tests) == 1 and sorted(vals) == sorted([p, f"Awaitify({p})"]), "R03.3", w, "awaitify",
-              "awaitify passes coroutine functions through and wraps everything else for run-time detection",
-              witness=str(vals))
+    for is_coro in (True, False):
+        ctx.count("adapter_cells")
+        outs = _adapter_run(ctx, w, {"iscoroutinefunction": is_coro}, {p: "FUNC"}, SKIP)
+        got = {oc.returned if oc.terminal.kind == "exit" else ("raises", str(oc.raised)) for oc in outs}
+        want = "FUNC" if is_coro else ("lib", "Awaitify", ("FUNC",))
+        ctx.check(got == {want}, "R03.3", w, "awaitify",
+                  f"[{'coroutine function' if is_coro else 'other callable'}] awaitify " + (
+                      "passes it through" if is_coro else "wraps it for run-time detection"), witness=str(sorted(map(str, got))))
+    # --- Awaitify.__call__
     a = ctx.unit("_core.Awaitify.__call__")
-    cfg = cfg_of(a)
-    paths = enumerate_paths(cfg, cfg.entry, lambda n: n is cfg.exit)
-    ctx.check(bool(paths), "R03.3", a, "__call__", "Awaitify.__call__ has a normal path")
-    for path in paths:
-        nodes = [n for n, _l in path]
-        calls = [n for n in nodes if n.kind == "call"]
-        user_calls = [n for n in calls if norm(n.ast.func) == "self.__wrapped__"]  # type: ignore[union-attr]
-        cached_calls = [n for n in calls if n not in user_calls and any(
-            x[0] == "user" or (x[0] == "libfn" and x[1].endswith("async_wrapped"))
-            for x in ctx.vals.expr(a, n.ast.func, n))]  # type: ignore[union-attr]
-        total = len(user_calls) + len(cached_calls)
-        ctx.check(total == 1, "R03.3", a, calls[-1] if calls else "__call__",
-                  "the wrapped callable is invoked exactly once per call", witness=f"{total} invocations on a path")
-        ret = [n for n in nodes if n.kind == "return"][-1]
-        rv = ret.info.get("value")
-        if user_calls:
-            # first-call path: decided by isinstance(value, Awaitable)
-            tests = [(n, lab) for n, lab in path if n.kind == "branch" and isinstance(n.ast, ast.Call)
-                     and norm(n.ast.func) == "isinstance" and norm(n.ast.args[1]) == "Awaitable"]
-            ctx.check(len(tests) == 1, "R03.3", a, ret, "the first call decides by isinstance(result, Awaitable)")
-            if tests:
-                is_awaitable = tests[0][1] == "t"
-                stores = [n for n in nodes if n.kind == "store" and any(
-                    isinstance(t, ast.Attribute) and t.attr == "_async_call" for t in n.info.get("targets", []))]
-                sval = norm(uncast_deep(stores[-1].info.get("value"))) if stores else None
-                rv = uncast_deep(rv)
-                if is_awaitable:
-                    ok = isinstance(rv, ast.Name) and norm(rv) == norm(tests[0][0].ast.args[0]) and sval == "self.__wrapped__"
-                    ctx.check(ok, "R03.3", a, ret, "an awaitable result is returned itself and the callable is "
-                              "remembered as asynchronous", witness=f"returns {norm(rv)}, caches {sval}")
-                else:
-                    v = ctx.vals.expr(a, ret.info.get("value"), ret)
-                    v = frozenset(x for x in v if x[0] != "stdlibval") or v
-                    if isinstance(uncast(ret.info.get("value")), ast.Call):
-                        v2 = ctx.vals.expr(a, uncast(ret.info.get("value")), ret)
-                        v = v2 or v
-                    ok = bool(v) and all(x[0] == "libcoro" for x in v) and sval == "force_async(self.__wrapped__)"
-                    ctx.check(ok, "R03.3", a, ret, "a plain result is wrapped in a library coroutine (never returned "
-                              "as a plain value) and the callable is remembered as synchronous",
-                              witness=f"returns {norm(rv)}, caches {sval}")
+    info = a.cls
+    init = info.methods.get("__init__")
+    me = a.param_names()[0]
+    va = a.node.args.vararg.arg if a.node.args.vararg else None
+    kw = a.node.args.kwarg.arg if a.node.args.kwarg else None
+    if init is None or va is None or kw is None:
+        raise AnalysisError("_core.Awaitify: __init__ / (*args, **kwargs) signature not found (anchor moved)")
+    # field roles from __init__: the field bound to the parameter is the wrapped callable, the one bound to None the cache
+    wrapped = cache = None
+    for st in own_nodes(init.node):
+        tg = st.targets[0] if isinstance(st, ast.Assign) else st.target if isinstance(st, ast.AnnAssign) else None
+        if isinstance(tg, ast.Attribute) and getattr(st, "value", None) is not None:
+            if isinstance(st.value, ast.Name) and st.value.id in init.param_names()[1:]:
+                wrapped = tg.attr
+            if isinstance(st.value, ast.Constant) and st.value.value is None:
+                cache = tg.attr
+    if wrapped is None or cache is None:
+        raise AnalysisError("_core.Awaitify.__init__: wrapped-callable / cache fields not found (anchor moved)")
+    star = (("*", "ARGS"), ("**", "KWARGS"))
+    base = {me: "SELF", va: "ARGS", kw: "KWARGS", "@f:" + wrapped: "FUNC"}
+    ctx.count("adapter_cells")
+    outs = _adapter_run(ctx, a, {}, dict(base, **{"@f:" + cache: "CACHED"}), SKIP)
+    got = {(oc.returned, oc.env.get("@calls", ())) for oc in outs if oc.terminal.kind == "exit"}
+    ctx.check(got == {(("call", "CACHED", star), (("CACHED", star),))} and all(oc.terminal.kind == "exit" for oc in outs),
+              "R03.3", a, "__call__", "[kind already known] the remembered callable is invoked exactly once with the call's "
+              "arguments and its result returned", witness=str(sorted(map(str, got))))
+    for awaitable in (True, False):
+        ctx.count("adapter_cells")
+        result = ("call", "FUNC", star)
+        outs = _adapter_run(ctx, a, {"isinstance": {(result, "Awaitable"): awaitable}}, dict(base, **{"@f:" + cache: None}), SKIP)
+        got = {(oc.returned, oc.env.get("@calls", ()), oc.env.get("@f:" + cache)) for oc in outs if oc.terminal.kind == "exit"}
+        if awaitable:
+            want = (result, (("FUNC", star),), "FUNC")
+            text = "an awaitable result is returned itself and the callable is remembered as asynchronous"
+        else:
+            want = (("lib", "await_value", (result,)), (("FUNC", star),), ("lib", "force_async", ("FUNC",)))
+            text = ("a plain result is wrapped in a library coroutine (never returned as a plain value) and the callable is "
+                    "remembered as synchronous")
+        ctx.check(got == {want} and all(oc.terminal.kind == "exit" for oc in outs), "R03.3", a, "__call__",
+                  f"[first call, {'awaitable' if awaitable else 'plain'} result] the wrapped callable is invoked exactly once, "
+                  "the decision is isinstance(result, Awaitable): " + text, witness=str(sorted(map(str, got)))[:400])
     f = ctx.unit("_core.force_async.async_wrapped")
     ok = f.kind == "coroutine" and any(isinstance(x, ast.Return) and isinstance(x.value, ast.Call) and
                                        norm(x.value.func) == "call" for x in own_nodes(f.node))
